@@ -363,6 +363,22 @@ func c16Sim(u *Unit) {
 				w.Manual(hosts[len(hosts)-1], "slow", func(x *world.Server) { x.DownloadRate, x.ApplyRate = 1, 1 })
 			}
 			time.Sleep(60 * time.Second)
+			if sp.CascGap != "ahead" {
+				// bounded progress: the new configured source is a healthy, current HA replica, so the cascade replica
+				// must be streaming from it a minute (twelve manager iterations) after the operator re-pointed it
+				tgt := hosts[len(hosts)-1]
+				w.Lock()
+				c9, t := w.Servers["cas-db9"], w.Servers[tgt]
+				healthy := t.Up && t.IORun && t.SQLRun && t.LastIOErrno == 0 && t.LastSQLErrno == 0 && c9.Up && c9.Executed.Minus(t.Retrieved).SubsetOf(t.Executed)
+				cur := c9.Source
+				desc := w.DescribeLocked()
+				w.Unlock()
+				if healthy && cur != tgt {
+					sc.Violate("C16", "reconfigured-cascade-replica-stays-on-old-source", fmt.Sprintf("60 s after the operator set stream_from of cas-db9 to the healthy replica %s it still streams from %q", tgt, cur), desc)
+				} else if cur == tgt {
+					sc.Cover("reconfigured-cascade-replica-followed")
+				}
+			}
 		}
 		time.Sleep(30 * time.Second)
 		mu.Lock()
